@@ -2,7 +2,18 @@ package main
 
 import "bufio"
 
-// runExtraProfile dispatches the non-seq profiles (added as they are built).
+// runExtraProfile dispatches the non-seq profiles.
 func runExtraProfile(name, root string, w *bufio.Writer, seed uint64, n, ops int) bool {
-	return false
+	run := NewRunner(root)
+	run.Reset()
+	switch name {
+	case "fmt":
+		genFmt(w, run, seed, n)
+	case "damage":
+		genDamage(w, run, seed, n, ops > 1)
+	default:
+		return false
+	}
+	run.Reset()
+	return true
 }
